@@ -130,6 +130,26 @@ def comp_defs(name_node: ast.Name) -> Optional[Def]:
     return None
 
 
+_ACC_CTORS = {"list", "set", "dict", "deque", "defaultdict", "OrderedDict", "Counter"}
+
+
+def is_empty_container(v: Optional[ast.expr]) -> bool:
+    if isinstance(v, (ast.List, ast.Set, ast.Tuple)) and not v.elts:
+        return True
+    if isinstance(v, ast.Dict) and not v.keys:
+        return True
+    if isinstance(v, ast.Call) and isinstance(v.func, ast.Name) and v.func.id in _ACC_CTORS:
+        return not v.args or v.func.id == "defaultdict"
+    return False
+
+
+def is_accumulator(fn: Func, name: str) -> bool:
+    """A local that starts as an empty container and is filled by mutation: its identity,
+    not its initial value, is what matters, so alias expansion stops at its name."""
+    defs = [d for d in scope_of(fn).get(name) if d.kind != "aug"]
+    return bool(defs) and all(d.kind == "assign" and is_empty_container(d.value) for d in defs)
+
+
 class Expander:
     """Expand local aliases in an expression into alternatives of 'origin' expressions.
 
@@ -160,6 +180,8 @@ class Expander:
             vals = [d for d in defs if d.kind in ("assign", "for", "with", "comp", "walrus") and d.value is not None]
             others = [d for d in defs if d not in vals]
             if not vals or e.id in seen:
+                return [e]
+            if cd_is_none(self, e) and is_accumulator(self.fn, e.id):
                 return [e]
             alts: List[ast.expr] = []
             for d in vals:
@@ -222,6 +244,10 @@ class Expander:
                 seen.add(k)
                 out.append(x)
         return out
+
+
+def cd_is_none(ex: "Expander", n: ast.Name) -> bool:
+    return comp_defs(n) is None
 
 
 def expand(prog: Program, fn: Func, e: ast.expr, **kw) -> List[ast.expr]:
